@@ -566,7 +566,7 @@ class C04:
                     continue  # match group access (T3)
                 t = self.typed.type_of(mod, base) or ""
                 tb = t.replace("builtins.", "")
-                if not (tb.startswith(("list[", "tuple[", "typing.Sequence[", "Sequence[")) or isinstance(base, ast.Call) and dotted(base.func) in ("list", "sorted")):
+                if not (tb.startswith(("list[", "tuple[", "typing.Sequence[", "Sequence[")) or tb == "str" or isinstance(base, ast.Call) and dotted(base.func) in ("list", "sorted")):
                     continue
                 if tb.startswith("tuple[") and "..." not in tb:
                     continue  # fixed-size tuple: index checked by the type checker
@@ -850,6 +850,39 @@ class C04:
                         "a parser whose failure modes on arbitrary strings (lone surrogates, control characters, NUL) are not in the table of checked "
                         f"library facts; handlers catch {sorted(caught)}")), node=c, mod=mod)
         ctx.extra["T11_foreign_parser_calls"] = n
+
+    # ---- T12 the subject of a regex call is a str ----------------------------------------------
+    RX_FUNCS = {"search": 1, "match": 1, "fullmatch": 1, "split": 1, "findall": 1, "finditer": 1, "sub": 2, "subn": 2}
+
+    def t12_regex_subjects(self):
+        """`re.search(p, x)` raises TypeError unless x is a str (a Token is a UserString, not a str; None is neither).  The static type of the subject,
+        after the narrowing the type checker applies for isinstance / truth tests, must be exactly str."""
+        from ..external import origin_of
+        ctx = self.ctx
+        n = 0
+        for q, mod, fn in self.funcs():
+            for c in [x for x in walk_local(fn) if isinstance(x, ast.Call) and isinstance(x.func, ast.Attribute) and x.func.attr in self.RX_FUNCS]:
+                o = origin_of(mod.imports, c.func) or ""
+                pos = None
+                if o.split(".")[0] in ("re", "regex") and o.count(".") == 1:
+                    pos = self.RX_FUNCS[c.func.attr]
+                else:
+                    rt = self.typed.type_of(mod, c.func.value) or ""
+                    if rt.startswith(("re.Pattern", "typing.Pattern", "regex.Pattern")):
+                        pos = self.RX_FUNCS[c.func.attr] - 1
+                if pos is None:
+                    continue
+                arg = c.args[pos] if len(c.args) > pos else next((k.value for k in c.keywords if k.arg == "string"), None)
+                if arg is None or isinstance(arg, ast.Starred):
+                    continue
+                t = (self.typed.type_of(mod, arg) or "").replace("builtins.", "")
+                if not t or t.startswith("Any") or t == "typing.Any":
+                    continue
+                n += 1
+                ctx.ob("T12", f"{q}/{norm(c.func)[:30]}({norm(arg)[:30]})", t in ("str", "LiteralString") or t.startswith("Literal["),
+                       f"the subject `{norm(arg)[:40]}` of a regex call has static type `{t[:70]}`; anything but str (a Token is a UserString, a missing value is None) "
+                       "makes the regex module raise TypeError", node=c, mod=mod)
+        ctx.extra["T12_regex_subjects"] = n
 
     # ---- T10 encoding input text -----------------------------------------------------------
     def t10_encoding(self):
@@ -1136,6 +1169,7 @@ def run(ctx: Ctx):
     ctx.guard(C.t9_metadata_keys)
     ctx.guard(C.t10_encoding)
     ctx.guard(C.t11_foreign_parsers)
+    ctx.guard(C.t12_regex_subjects)
     ctx.floor("T10", 3)
     ctx.floor("T1", 4)
     ctx.floor("T2", 8)
